@@ -152,6 +152,13 @@ class _Canon(ast.NodeTransformer):
     def visit_Expr(self, node):
         self.generic_visit(node)
         v = node.value
+        # N11: `delattr(x, "name")` -> `del x.name`;  `setattr(x, "name", v)` -> `x.name = v`
+        if isinstance(v, ast.Call) and isinstance(v.func, ast.Name) and not v.keywords and len(v.args) >= 2 and isinstance(v.args[1], ast.Constant) \
+                and isinstance(v.args[1].value, str) and v.args[1].value.isidentifier():
+            if v.func.id == "delattr" and len(v.args) == 2:
+                return _loc(ast.Delete(targets=[ast.Attribute(value=v.args[0], attr=v.args[1].value, ctx=ast.Del())]), node)
+            if v.func.id == "setattr" and len(v.args) == 3:
+                return _loc(ast.Assign(targets=[ast.Attribute(value=v.args[0], attr=v.args[1].value, ctx=ast.Store())], value=v.args[2]), node)
         if isinstance(v, ast.BoolOp) and isinstance(v.values[-1], ast.Call) and len(v.values) >= 2:
             pre = v.values[0] if len(v.values) == 2 else ast.BoolOp(op=v.op, values=v.values[:-1])
             test = pre if isinstance(v.op, ast.And) else ast.UnaryOp(op=ast.Not(), operand=pre)
